@@ -38,9 +38,10 @@ type (
 		X, I Expr
 	}
 	EQuant struct {
-		Forall bool
-		Vars   []QVar
-		Body   Expr
+		Forall   bool
+		Vars     []QVar
+		Body     Expr
+		Triggers []Expr // optional explicit instantiation patterns (one multi-pattern)
 	}
 	EOld struct{ X Expr }
 )
@@ -208,7 +209,7 @@ func lexExpr(src string) ([]stok, error) {
 			toks = append(toks, stok{"str", src[i+1 : j]})
 			i = j + 1
 		default:
-			ops := []string{"<==>", "==>", "::", "==", "!=", "<=", ">=", "&&", "||", "(", ")", "[", "]", ",", ".", "<", ">", "+", "-", "*", "/", "%", "!", ":", "?"}
+			ops := []string{"<==>", "==>", "::", "@", "==", "!=", "<=", ">=", "&&", "||", "(", ")", "[", "]", ",", ".", "<", ">", "+", "-", "*", "/", "%", "!", ":", "?"}
 			matched := false
 			for _, op := range ops {
 				if strings.HasPrefix(src[i:], op) {
@@ -287,6 +288,23 @@ func (p *parser) parseExpr() (Expr, error) {
 			}
 			break
 		}
+		// optional explicit triggers:  forall i int @ result[i+1], f(i) :: body
+		var triggers []Expr
+		if p.isOp("@") {
+			p.pos++
+			for {
+				t, err := p.parseAddSub()
+				if err != nil {
+					return nil, err
+				}
+				triggers = append(triggers, t)
+				if p.isOp(",") {
+					p.pos++
+					continue
+				}
+				break
+			}
+		}
 		if err := p.expectOp("::"); err != nil {
 			return nil, err
 		}
@@ -294,7 +312,7 @@ func (p *parser) parseExpr() (Expr, error) {
 		if err != nil {
 			return nil, err
 		}
-		return &EQuant{Forall: forall, Vars: vars, Body: body}, nil
+		return &EQuant{Forall: forall, Vars: vars, Body: body, Triggers: triggers}, nil
 	}
 	return p.parseIff()
 }
@@ -859,8 +877,12 @@ func parseSpecFile(path, pkg string) (*SpecFile, error) {
 			}
 		case "chaninv", "atomic":
 			// chaninv Key(msg[, extra...]): expr      atomic Struct.field(old,new): expr
+			// (the key itself may contain parentheses: (*Exchange).Head.headerRespCh)
 			c := strings.Index(rest, "):")
-			op := strings.Index(rest, "(")
+			op := -1
+			if c >= 0 {
+				op = strings.LastIndex(rest[:c], "(")
+			}
 			if c < 0 || op < 0 {
 				return nil, fail(l, "%s Key(var): expr", kw)
 			}
